@@ -67,6 +67,13 @@ def static_mech(src, opts, out):
         tree = ast.parse(src)
     except Exception:
         return None
+    if opts.get('combine_imports'):
+        # adjacent from-imports of one module inside a try body: merged, every listed submodule is imported before any name is bound
+        for n in ast.walk(tree):
+            if isinstance(n, ast.Try):
+                for x, y in zip(n.body, n.body[1:]):
+                    if isinstance(x, ast.ImportFrom) and isinstance(y, ast.ImportFrom) and x.module == y.module and x.level == y.level and x.module != '__future__':
+                        return 'C01.combine_imports.partial_binding'
     fb = class_fallback_names(tree)
     if fb and out:
         try:
@@ -193,6 +200,7 @@ def programs(tier, seed):
     trig = list(triggergen.cases())
     r = common.rng(seed, 'C01-trig')
     r.shuffle(trig)
+    trig = [c for c in trig if c['shape'].endswith('@special')] + [c for c in trig if not c['shape'].endswith('@special')]
     for c in trig[:(300 if quick else len(trig))]:
         yield c['shape'], c['src']
     for i in range(220 if quick else 5000):
@@ -238,6 +246,7 @@ def cross_programs(tier, seed):
     trig = list(triggergen.cases())
     r = common.rng(seed, 'C01-cross-trig')
     r.shuffle(trig)
+    trig = [c for c in trig if c['shape'].endswith('@special')] + [c for c in trig if not c['shape'].endswith('@special')]
     for c in trig[:(120 if quick else 1500)]:
         yield c['shape'], c['src']
     for i in range(60 if quick else 1200):
